@@ -138,7 +138,15 @@ func c01Check(cs c01Case) (ds []disc) {
 		}
 	}()
 	if cs.Overwrite {
-		r := put(st, "bk0", key, []byte("previous content of the key"), "X-Amz-Meta-Old", "old-value", "Content-Type", "text/old")
+		// the object being replaced carries, besides headers of its own, every header name of the
+		// new upload with a stale value: what the new upload sends (an empty value included) wins
+		prev := []string{"X-Amz-Meta-Old", "old-value", "Content-Type", "text/old"}
+		for _, kv := range cs.Meta {
+			if !strings.EqualFold(kv[0], "Content-Type") {
+				prev = append(prev, kv[0], "stale value of the replaced object")
+			}
+		}
+		r := put(st, "bk0", key, []byte("previous content of the key"), prev...)
 		if r.Status != 200 {
 			fail("pre-put", "cannot store the previous object: %s", r)
 			return
@@ -473,7 +481,7 @@ func c01GenMeta(rt *rapid.T) [][2]string {
 	seen := map[string]bool{}
 	valGen := rapid.OneOf(
 		rapid.StringMatching(`[!-~]([ -~]{0,40}[!-~])?`),
-		rapid.SampledFrom([]string{"päivää", "値", "a  b", "x;y=z", `"quoted"`, "100%", "a,b"}),
+		rapid.SampledFrom([]string{"päivää", "値", "a  b", "x;y=z", `"quoted"`, "100%", "a,b", "", ""}), // a header may be sent with an empty value
 		// header values are bytes (RFC 7230 obs-text): Latin-1 text and other byte strings that are not UTF-8
 		rapid.SampledFrom([]string{`caf\xe9`, `\xff\xfe\x80`, `na\xefve \xc3`, `\xe4\xf6\xfc`}), // expanded by c01MetaBytes
 	)
@@ -621,6 +629,8 @@ func c01Run(t *testing.T, c *evid.Collector) {
 			for _, ioff := range []bool{false, true} {
 				for _, p := range []string{"put", "put-md5", "post", "copy", "api"} {
 					one(c01Case{Backend: k, IntegrityOff: ioff, Key: "plain", Body: bodySpec{}, Path: p}, "fixed")
+					one(c01Case{Backend: k, IntegrityOff: ioff, Key: "empty-metadata-values", Body: bodySpec{Lit: []byte("x")}, Path: p, Overwrite: true,
+						Meta: [][2]string{{"X-Amz-Meta-Note", ""}, {"X-Amz-Meta-Kept", "k"}, {"Content-Encoding", ""}}}, "fixed")
 					one(c01Case{Backend: k, IntegrityOff: ioff, Key: "latin1-metadata", Body: bodySpec{Lit: []byte("x")}, Path: p, Meta: [][2]string{{"X-Amz-Meta-Name", `caf\xe9`}, {"Content-Disposition", `attachment; filename=\xe4.txt`}}}, "fixed")
 					one(c01Case{Backend: k, IntegrityOff: ioff, Key: "dir/sub dir/ünï+%/obj?#.txt", Body: bodySpec{Lit: []byte("hello\x00\xff world")}, Path: p,
 						Meta: [][2]string{{"X-Amz-Meta-A", "1"}, {"Content-Type", "text/x"}, {"Content-Encoding", "gzip"}, {"Content-Disposition", "inline"}}, Overwrite: true}, "fixed")
